@@ -20,7 +20,7 @@ import tools_mutant  # noqa: E402
 RELATED = {
     "c01": ["C01", "C07", "C02", "C19"], "c02": ["C02", "C03", "C20"], "c03": ["C03", "C02", "C04"], "c04": ["C04", "C05", "C02"], "c05": ["C05", "C04", "C07"],
     "c06": ["C06", "C07", "C05", "C03"], "c07": ["C07", "C01", "C08", "C06"], "c08": ["C08", "C01", "C04"], "c09": ["C09", "C01", "C06"], "c10": ["C10"], "c11": ["C11", "C12"], "c12": ["C12", "C11", "C01"],
-    "c13": ["C13", "C01"], "c14": ["C14"], "c15": ["C15", "C12"], "c16": ["C16"], "c17": ["C17"], "c18": ["C18"], "c19": ["C19", "C01", "C07"], "c20": ["C20", "C02"],
+    "c13": ["C13", "C14", "C01"], "c14": ["C14"], "c15": ["C15", "C12"], "c16": ["C16"], "c17": ["C17"], "c18": ["C18"], "c19": ["C19", "C01", "C07"], "c20": ["C20", "C02"],
 }
 
 
